@@ -257,7 +257,7 @@ package transport
 //@   ghost nR int = 0
 //@   oncall Write: nW = nW + 1
 //@   oncall ReadMsgFromTCP?: nR = nR + 1
-//@   modifies pkgheaps(dnsmsg), bytes()
+//@   modifies nothing
 //@   ensures [C06:one-query-one-reply] nW == 1 && nR <= 1
 //@   ensures (err == nil) == (r != nil)
 //@   callsite Write: [C06:sends-the-payload] sameSlice(arg1, payload, 0, len(payload))
